@@ -103,3 +103,32 @@ func replayOnce(c *sym.Case, fn func()) (string, string) {
 	}
 	return outcome, result
 }
+
+// TestSelf runs the translator self-tests (Ob_S00_*) natively: their asserts state what the real Go functions
+// return, so a wrong expectation fails here and a wrong encoding fails in the symbolic run.
+func TestSelf(t *testing.T) {
+	if os.Getenv("VERIF_SELF") == "" {
+		t.Skip("no VERIF_SELF")
+	}
+	bad := 0
+	for name, fn := range Registry {
+		if !strings.HasPrefix(name, "Ob_S00_") {
+			continue
+		}
+		sym.LoadEmpty()
+		func() {
+			defer func() {
+				if r := recover(); r != nil {
+					fmt.Printf("SELF %s panicked: %v\n", name, r)
+					bad++
+				}
+			}()
+			fn()
+		}()
+		fmt.Printf("SELF %s passed=%d failed=%v\n", name, len(sym.PassedAsserts), sym.FailedAsserts)
+		bad += len(sym.FailedAsserts)
+	}
+	if bad > 0 {
+		t.Fatalf("%d native self-test failures", bad)
+	}
+}
